@@ -34,8 +34,10 @@ const (
 )
 const (
 	qIdle = iota
+	qLoaded
 	qComposing
 	qSending
+	qAcking
 	qStopped
 )
 
@@ -53,6 +55,8 @@ type mstate struct {
 	broken   bool
 	stopReq  bool
 	qpc      int
+	rd       int  // readRecordID of the tick branch (qLoaded, qAcking, and while inTick)
+	inTick   bool // the bad-data response is composed / sent from inside the tick branch
 	sAck     int
 	sRanges  []idr
 	sBad     bool
@@ -69,16 +73,18 @@ func (s *mstate) clone() *mstate {
 // mevent is one event of the LTS together with what was OBSERVED on the real code for it (values
 // that the model's output must reproduce) and its ordering constraints from the global log.
 type mevent struct {
-	kind string // checkErr decode readFail consume schedAck schedBad | tick badRecv badMore badDone sendOk sendFail stop
+	kind string // checkErr decode readFail consume schedAck schedBad | tick badRecv badMore badDone tickNoBad tickAck sendOk sendFail stop
 	n    int    // decode: records
 	out  string // consume: accept | perm | trans
 	// observations
 	exit   bool  // checkErr: the loop was observed to exit with the responder's error
-	ack    int   // tick/badDone/sendOk/sendFail: AckRecordId of the response
+	ack    int   // tick (the id loaded) / badDone/tickAck/sendOk/sendFail: AckRecordId of the response
 	ranges []idr // badDone/sendOk/sendFail: ranges of the response
-	// cross-thread constraints derived from the global log: this event needs that many events of
-	// the other thread to have happened before it.
-	need int
+	noop   bool  // tickAck: nothing was sent (readRecordID <= lastAckedID)
+	// cross-thread constraints derived from the global log.
+	need      int  // Responder event: that many receiver-loop events happened before it
+	needSends int  // receiver-loop event: the loads and channel receives of that many responses happened before it
+	fused     bool // tick: first event of a tick branch that also sends a bad-data response
 }
 
 func (e *mevent) op() string {
@@ -153,25 +159,24 @@ func (s *mstate) step(e *mevent) (bool, string) {
 		s.rpc = rTop
 		return true, fmt.Sprintf("ok q=%d", len(s.queue))
 	case "tick":
+		// case <-t.C: readRecordID := r.nextAckID.Load()
 		if s.qpc != qIdle {
 			return false, ""
 		}
-		if s.nextAck > s.lastAck {
-			s.lastAck = s.nextAck
-			s.qpc = qSending
-			s.sAck, s.sRanges, s.sBad = s.nextAck, nil, false
-			return true, fmt.Sprintf("ok send ack=%d", s.sAck)
-		}
-		return true, "ok noop"
+		s.qpc = qLoaded
+		s.rd = s.nextAck
+		return true, fmt.Sprintf("ok load rd=%d", s.rd)
 	case "badRecv":
-		if s.qpc != qIdle || len(s.queue) == 0 {
+		// outer select (idle) or the non-blocking select of the tick branch (loaded)
+		if (s.qpc != qIdle && s.qpc != qLoaded) || len(s.queue) == 0 {
 			return false, ""
 		}
+		s.inTick = s.qpc == qLoaded
 		h := s.queue[0]
 		s.queue = s.queue[1:]
 		s.qpc = qComposing
 		s.sAck, s.sRanges, s.sBad = h.to, []idr{h}, true
-		return true, fmt.Sprintf("ok ack=%d n=%d q=%d", s.sAck, len(s.sRanges), len(s.queue))
+		return true, fmt.Sprintf("ok ack=%d n=%d q=%d in=%s", s.sAck, len(s.sRanges), len(s.queue), s.where())
 	case "badMore":
 		if s.qpc != qComposing || len(s.queue) == 0 {
 			return false, ""
@@ -182,13 +187,35 @@ func (s *mstate) step(e *mevent) (bool, string) {
 		if s.sAck < h.to {
 			s.sAck = h.to
 		}
-		return true, fmt.Sprintf("ok ack=%d n=%d q=%d", s.sAck, len(s.sRanges), len(s.queue))
+		return true, fmt.Sprintf("ok ack=%d n=%d q=%d in=%s", s.sAck, len(s.sRanges), len(s.queue), s.where())
 	case "badDone":
 		if s.qpc != qComposing || len(s.queue) != 0 {
 			return false, ""
 		}
+		if s.sAck < s.lastAck { // sendBadDataResponse: never acknowledge less than lastAckedID
+			s.sAck = s.lastAck
+		}
 		s.qpc = qSending
 		return true, fmt.Sprintf("ok send ack=%d ranges=%s", s.sAck, rangesStr(s.sRanges))
+	case "tickNoBad":
+		// default: of the tick branch's select
+		if s.qpc != qLoaded || len(s.queue) != 0 {
+			return false, ""
+		}
+		s.qpc = qAcking
+		return true, "ok acking"
+	case "tickAck":
+		if s.qpc != qAcking {
+			return false, ""
+		}
+		if s.rd > s.lastAck {
+			s.lastAck = s.rd
+			s.qpc = qSending
+			s.sAck, s.sRanges, s.sBad, s.inTick = s.rd, nil, false, false
+			return true, fmt.Sprintf("ok send ack=%d", s.sAck)
+		}
+		s.qpc = qIdle
+		return true, "ok noop"
 	case "sendOk":
 		if s.qpc != qSending || s.broken {
 			return false, ""
@@ -197,8 +224,8 @@ func (s *mstate) step(e *mevent) (bool, string) {
 		if s.sBad {
 			s.lastAck = s.sAck
 		}
-		s.qpc = qIdle
-		return true, fmt.Sprintf("ok resp=%d ack=%d ranges=%s la=%d", s.nresp, s.sAck, rangesStr(s.sRanges), s.lastAck)
+		s.afterSend()
+		return true, fmt.Sprintf("ok resp=%d ack=%d ranges=%s la=%d next=%s", s.nresp, s.sAck, rangesStr(s.sRanges), s.lastAck, qpcNames[s.qpc])
 	case "sendFail":
 		if s.qpc != qSending {
 			return false, ""
@@ -206,8 +233,8 @@ func (s *mstate) step(e *mevent) (bool, string) {
 		s.nresp++
 		s.lastErr = true
 		s.broken = true
-		s.qpc = qIdle
-		return true, fmt.Sprintf("ok failed resp=%d ack=%d ranges=%s la=%d", s.nresp, s.sAck, rangesStr(s.sRanges), s.lastAck)
+		s.afterSend()
+		return true, fmt.Sprintf("ok failed resp=%d ack=%d ranges=%s la=%d next=%s", s.nresp, s.sAck, rangesStr(s.sRanges), s.lastAck, qpcNames[s.qpc])
 	case "stop":
 		if s.qpc != qIdle || !s.stopReq {
 			return false, ""
@@ -218,8 +245,26 @@ func (s *mstate) step(e *mevent) (bool, string) {
 	return false, ""
 }
 
+// afterSend: a bad-data response sent from inside the tick branch continues with the
+// acknowledgement of the id loaded before; everything else returns to the select.
+func (s *mstate) afterSend() {
+	if s.sBad && s.inTick {
+		s.qpc = qAcking
+	} else {
+		s.qpc = qIdle
+	}
+	s.inTick = false
+}
+
+func (s *mstate) where() string {
+	if s.inTick {
+		return "tick"
+	}
+	return "select"
+}
+
 var rpcNames = []string{"top", "await", "decoded", "needAck", "needBad", "exited"}
-var qpcNames = []string{"idle", "composing", "sending", "stopped"}
+var qpcNames = []string{"idle", "loaded", "composing", "sending", "acking", "stopped"}
 
 func b01(b bool) int {
 	if b {
@@ -244,11 +289,16 @@ func (e *mevent) expected(o string) string {
 		}
 		return "ok await"
 	case "tick":
+		return fmt.Sprintf("ok load rd=%d", e.ack)
+	case "tickAck":
+		if e.noop {
+			return "ok noop"
+		}
 		return fmt.Sprintf("ok send ack=%d", e.ack)
 	case "badDone":
 		return fmt.Sprintf("ok send ack=%d ranges=%s", e.ack, rangesStr(e.ranges))
 	case "sendOk", "sendFail":
-		// "ok [failed ]resp=N ack=A ranges=R la=L": ack and ranges are observed
+		// "ok [failed ]resp=N ack=A ranges=R la=L next=P": ack and ranges are observed
 		i := strings.Index(o, " la=")
 		j := strings.Index(o, " ack=")
 		if i < 0 || j < 0 {
@@ -259,80 +309,156 @@ func (e *mevent) expected(o string) string {
 	return o
 }
 
-// linearise searches an interleaving of R (receiver loop) and Q (Responder goroutine) that the
+// The Responder's thread is a sequence of groups; a group is what Run does for one or two
+// consecutive responses and may have alternatives that differ in WHERE the tick branch loaded the
+// id it acknowledged (nothing in the log tells): a bad-data response followed by an
+// acknowledgement is either
+//   fused: tick (load), badRecv .. badDone, send result, tickAck, send result   (one tick branch)
+//   split: badRecv .. badDone, send result (outer bad-data branch); tick, tickNoBad, tickAck, send result
+// A tick branch whose final comparison sends nothing is indistinguishable from the outer bad-data
+// branch (same state afterwards) and a tick that neither reports nor acknowledges is a no-op, so
+// these are not generated.
+type qalt struct {
+	evs    []mevent
+	preEnd []int // per response of the group: offset in evs just after its loads / channel receives
+}
+
+type qgroup struct {
+	nsends int
+	alts   []qalt
+}
+
+type qpos struct{ g, alt, off int }
+
+// sendsPre: number of responses whose loads and channel receives have happened at position p.
+func sendsPre(groups []qgroup, base []int, p qpos) int {
+	if p.g >= len(groups) {
+		return base[len(groups)]
+	}
+	n := base[p.g]
+	for _, pe := range groups[p.g].alts[p.alt].preEnd {
+		if pe <= p.off {
+			n++
+		}
+	}
+	return n
+}
+
+// linearise searches an interleaving of R (receiver loop) and the Responder's groups that the
 // mirror accepts with outputs equal to the observations. For accepted prefixes the state is a
-// function of (i, j) - every shared variable has one writer and all values read are observed -
-// so a depth-first search with a visited set over the (i, j) grid is complete.
+// function of (i, position in the chosen alternative) - every shared variable has one writer and
+// all values read are observed (the id a tick loads is the id it is seen to acknowledge) - so a
+// depth-first search with a visited set over (i, group, alternative, offset) is complete.
 // Returns the interleaving (or the longest accepted prefix plus the first stuck events) and ok.
-func linearise(R, Q []mevent) ([]*mevent, bool) {
-	type node struct{ i, j int }
+func linearise(R []mevent, groups []qgroup) ([]*mevent, bool) {
+	base := make([]int, len(groups)+1)
+	for g := range groups {
+		base[g+1] = base[g] + groups[g].nsends
+	}
+	type node struct {
+		i int
+		p qpos
+	}
 	visited := map[node]bool{}
 	var best []*mevent
+	bestI, bestP := 0, qpos{}
 	var path []*mevent
-	var rec func(s *mstate, i, j int) bool
-	rec = func(s *mstate, i, j int) bool {
-		if i == len(R) && j == len(Q) {
+	var rec func(s *mstate, i int, p qpos) bool
+	rec = func(s *mstate, i int, p qpos) bool {
+		if i == len(R) && p.g == len(groups) {
 			return true
 		}
-		if visited[node{i, j}] {
+		if visited[node{i, p}] {
 			return false
 		}
-		visited[node{i, j}] = true
-		if len(path) > len(best) {
-			best = append([]*mevent(nil), path...)
+		visited[node{i, p}] = true
+		if len(path) > len(best) || best == nil {
+			best = append([]*mevent{}, path...)
+			bestI, bestP = i, p
 		}
-		// Responder events first: they are the ones that read the shared variables.
-		if j < len(Q) && i >= Q[j].need {
+		// Responder events first: they are the ones that read the shared variables. At the start
+		// of a group with alternatives: the fused one (bad data reported from inside the tick
+		// branch), then the receiver loop, then the split one - so that the tick branch's own
+		// bad-data path is the certificate whenever the observations admit it.
+		tryQ := func(a int) bool {
+			evs := groups[p.g].alts[a].evs
+			e := &evs[p.off]
+			if i < e.need {
+				return false
+			}
 			c := s.clone()
-			if ok, o := c.step(&Q[j]); ok && Q[j].expected(o) == o {
-				path = append(path, &Q[j])
-				if rec(c, i, j+1) {
+			if ok, o := c.step(e); ok && e.expected(o) == o {
+				np := qpos{p.g, a, p.off + 1}
+				if np.off == len(evs) {
+					np = qpos{p.g + 1, 0, 0}
+				}
+				path = append(path, e)
+				if rec(c, i, np) {
 					return true
 				}
 				path = path[:len(path)-1]
 			}
+			return false
 		}
-		if i < len(R) && j >= R[i].need {
-			c := s.clone()
-			if ok, o := c.step(&R[i]); ok && R[i].expected(o) == o {
-				path = append(path, &R[i])
-				if rec(c, i+1, j) {
+		tryR := func() bool {
+			if i < len(R) && sendsPre(groups, base, p) >= R[i].needSends {
+				c := s.clone()
+				if ok, o := c.step(&R[i]); ok && R[i].expected(o) == o {
+					path = append(path, &R[i])
+					if rec(c, i+1, p) {
+						return true
+					}
+					path = path[:len(path)-1]
+				}
+			}
+			return false
+		}
+		if p.g < len(groups) {
+			if p.off > 0 {
+				if tryQ(p.alt) {
 					return true
 				}
-				path = path[:len(path)-1]
+			} else {
+				if tryQ(0) {
+					return true
+				}
+				if len(groups[p.g].alts) > 1 {
+					if tryR() {
+						return true
+					}
+					for a := 1; a < len(groups[p.g].alts); a++ {
+						if tryQ(a) {
+							return true
+						}
+					}
+					return false
+				}
 			}
 		}
-		return false
+		return tryR()
 	}
-	if rec(&mstate{}, 0, 0) {
+	if rec(&mstate{}, 0, qpos{}) {
 		return append([]*mevent(nil), path...), true
 	}
 	// no interleaving: return the longest accepted prefix followed by the remaining events in
-	// thread order (Responder first), so that the Lean model points at the first impossible one.
-	ni, nj := 0, 0
-	for _, e := range best {
-		if isQ(e.kind) {
-			nj++
-		} else {
-			ni++
-		}
-	}
+	// thread order (Responder first, last alternative = the split one), so that the Lean model
+	// points at the first impossible one.
 	res := best
-	for j := nj; j < len(Q); j++ {
-		res = append(res, &Q[j])
+	p := bestP
+	for p.g < len(groups) {
+		if p.off == 0 {
+			p.alt = len(groups[p.g].alts) - 1
+		}
+		evs := groups[p.g].alts[p.alt].evs
+		for k := p.off; k < len(evs); k++ {
+			res = append(res, &evs[k])
+		}
+		p = qpos{p.g + 1, 0, 0}
 	}
-	for i := ni; i < len(R); i++ {
+	for i := bestI; i < len(R); i++ {
 		res = append(res, &R[i])
 	}
 	return res, false
-}
-
-func isQ(kind string) bool {
-	switch kind {
-	case "tick", "badRecv", "badMore", "badDone", "sendOk", "sendFail", "stop":
-		return true
-	}
-	return false
 }
 
 // emitRun prints the op lines of an interleaving with the outputs demanded by the observations.
